@@ -687,7 +687,26 @@ fn record(a: &Args) {
             Some(o) => o,
             None => continue,
         };
+        // every other run a second, unobserved shuffle (same or another size) is used between the steps of the observed one
+        let mut decoy = if run % 2 == 1 {
+            let dm = if run % 4 == 1 { m } else { rng.random_range(1..=maxm) };
+            catch(|| FYshuffle::new(dm)).ok().map(|f| (f, dm))
+        } else {
+            None
+        };
         for _ in 0..len {
+            if let Some((d, dm)) = decoy.as_mut() {
+                let n = pick_n(*dm, rng.random_range(0..*dm), &mut rng);
+                let mut g = Fixed::new(n);
+                let isreset = rng.random_range(0..10) == 0;
+                let _ = catch(|| {
+                    if isreset {
+                        d.reset();
+                    } else {
+                        let _ = d.next(&mut g);
+                    }
+                });
+            }
             let ok = if rng.random_range(0..15) == 0 {
                 rec.reset(&mut o)
             } else {
